@@ -223,6 +223,9 @@ ANY = [("Execute", {}), ("ExecuteConcurrent", {}), ("ExecuteMixModel", {}), ("Ex
        ("ExecuteNConcurrentMConcurrent", {"n": 1, "m": 2}),
        ("ExecuteDAGModel", {"dag": [["r1", "r2", "r1"], ["r3", "r1"]]}),
        ("ExecuteDAGModel", {"dag": [["r1", "r1", "r1"]]}),
+       # names that are no rules, in front of existing ones
+       ("ExecuteDAGModel", {"dag": [["zz", "r1"], ["zz", "r2"], ["r3"]]}),
+       ("ExecuteDAGModel", {"dag": [["zz", "yy", "r2", "r1"], ["r3", "zz", "r1"]]}),
        ("ExecuteSelectedRulesConcurrent", {"names": ["r1", "r2", "r3"]}),
        ("ExecuteSelectedRulesMixModel", {"names": ["r3", "r2", "r1"]}),
        ("ExecuteSelectedRules", {"names": ["r2", "r1"]}),
@@ -308,7 +311,12 @@ def check_c15(run):
                 # only where rules run one at a time: two executions writing the caller's stop tag at once would be the
                 # caller's own data race, not gengine's
                 s["rules"] = with_cf(s["rules"], "T")
-            elif x < 0.7:
+            elif x < 0.63:
+                # a rule dies of a fault that only the rule-level recover catches; a later call runs its rules at once
+                s["rules"] = with_cf(s["rules"], "P")
+                s["calls"][0]["b"] = True
+                s["calls"] = s["calls"][:1] + [mkcall(*rng.choice([a for a in ANY if a[0] not in SEQT])) for _ in range(rng.randint(1, 2))]
+            elif x < 0.75:
                 # locals holding objects: the value of a read is told by a METHOD of the object in the local
                 for r in s["rules"]:
                     names = {o["name"] for o in r["ops"] if o["k"] in ("W", "R")}
